@@ -16,7 +16,7 @@ from vf.models import codec
 from vf.vworld import peer
 
 PKTS = ['0', '1', '2', '3', '4text', '4{"k":[1,"x"]}', 'bAAEC', '5', '6', '7', '8', '9x', 'x', '']
-FRAMES = PKTS + [b'\x00\x01\x02', 'b!', '4']
+FRAMES = PKTS + [b'\x00\x01\x02', 'b!', '4', b'']
 INTERVAL = 1.0
 T_BODY = 0.5
 _DIGESTS = set()
